@@ -72,6 +72,18 @@ def shard_fn(shard, nshards, seed, tier, exe, ndocs, nenum):
                 err_at, eno = -1, 0
             cmds.append("FDW 0 %d %s %d %d" % (flags, caps, err_at, eno))
             plan.append(("w", caps, err_at, eno))
+        if rng.random() < 0.08:
+            # serialization itself fails (a custom serializer of the root or of a nested node reports an error): nothing may be written, -1 must be returned
+            from gen.trees import random_path
+            path, t = random_path(rng, toks)
+            if t[0] != "n":
+                cmds += ["NAV 0 5 " + " ".join(path), "SS 5 0 2", "FDW 0 %d %s -1 0" % (flags, schedules(rng))]
+                plan += [("skip",), ("skip",), ("wserfail",)]
+                if rng.random() < 0.5:
+                    cmds.append("FDF x%s 1 %d 0 %d" % (("/dev/shm/vf_c20_%d_%d_f.json" % (shard, n)).encode().hex(), flags, rng.randrange(2)))
+                    plan.append(("filefail",))
+                cmds.append("SS 5 0 0")
+                plan.append(("skip",))
         if rng.random() < 0.15:
             # the path may already hold an older file (empty, shorter or much longer than what is written now)
             cmds.append("FDF x%s 1 %d %d %d" % (("/dev/shm/vf_c20_%d_%d.json" % (shard, n)).encode().hex(), flags, rng.choice([0, 0, 1, 50, 5000, 100000]), rng.randrange(2)))
@@ -136,8 +148,10 @@ def shard_fn(shard, nshards, seed, tier, exe, ndocs, nenum):
     for cid, lines in results.items():
         plan, cmds = meta[cid], cmdmap[cid]
         off = 1 if cmds[0].startswith("B ") else 0
-        for st, cmd, ln in zip(plan, cmds[off:], lines[off:]):
+        for ci, (st, cmd, ln) in enumerate(zip(plan, cmds[off:], lines[off:])):
             rep = {"driver": "jcdrv", "variant": "asan", "script": ([cmds[0][:20000]] if off else []) + [cmd[:20000]]}
+            if st[0] in ("wserfail", "filefail"):
+                rep["script"] = [c[:20000] for c in cmds[:off + ci + 1]]
             f = dict(x.split("=", 1) for x in ln.split()[1:] if "=" in x)
             sh.evaluations += 1
             key = None
@@ -164,6 +178,21 @@ def shard_fn(shard, nshards, seed, tier, exe, ndocs, nenum):
                     elif not le:
                         key, what = "write-error-no-message", "json_util_get_last_err() is NULL after a failed write"
                     sh.count("write.error_injected")
+            elif st[0] == "skip":
+                continue
+            elif st[0] == "wserfail":
+                rc, le, got = int(f["rc"]), int(f["lasterr"]), bytes.fromhex(f["got"][1:])
+                if rc != -1:
+                    key, what = "serialization-failure-not-reported", "a serializer reported failure but json_object_to_fd returned %d" % rc
+                elif got:
+                    key, what = "serialization-failure-wrote-bytes", "a serializer reported failure but %d bytes reached the descriptor" % len(got)
+                sh.count("write.serialization_failed")   # (no message is required here: the statement asks for one on the reading side only)
+            elif st[0] == "filefail":
+                if int(f["rc"]) != -1:
+                    key, what = "serialization-failure-not-reported", "a serializer reported failure but json_object_to_file[_ext] returned %s" % f["rc"]
+                elif f["opens"] != f["closes"]:
+                    key, what = "file-roundtrip", "descriptor accounting after a failed json_object_to_file: %s" % ln
+                sh.count("file.serialization_failed")
             elif st[0] == "r":
                 _, caps, err_at, eno, depth = st
                 if "mem" not in ln:
